@@ -170,18 +170,25 @@ def run(model, rep, tier):
                '' if ok else 'user data are not written to (prefactor, energy)[class index] of the class the tag belongs to',
                engine='flow')
     # ---- verbose report
-    src = unparse(t2p)
-    checks = [
-        ('if usertag not in self.tagdict:\n            badtaglist.append(usertag)', 'unknown tags go to the bad-tag list'),
-        ('tupledict[self.tagdicttype[usertag], self.tagdict[usertag]].append(usertag)', 'known tags are grouped by (type, class index)'),
-        ('if len(v) == 0:', 'classes without data are reported missing'),
-        ('elif len(v) > 1:\n            duplicatelist.append(v)', 'classes given more than once are reported as duplicates'),
-        ('tupledict = {(tagtype, n): [] for tagtype, taglist in self.tags.items() for n in range(len(taglist))}',
-         'every class of every type starts with an empty list'),
-    ]
-    for frag, what in checks:
-        present = _has_stmt(t2p, frag)
-        rep.ob('verbose-report', mod, t2p, what, present, '' if present else 'the verbose report no longer does this', engine='flow')
+    from ..engines import pattern
+    bad = pattern.find(t2p, 'for _N_u in usertagdict:\n    if _N_u not in self.tagdict:\n        _N_bad.append(_N_u)\n    else:\n        '
+                            '_N_td[self.tagdicttype[_N_u], self.tagdict[_N_u]].append(_N_u)')
+    rep.ob('verbose-report', mod, t2p, 'unknown tags go to the bad-tag list, known tags are grouped by (type, class index)', bool(bad),
+           '' if bad else 'the verbose report no longer separates unknown tags / groups known tags by class', engine='flow')
+    init = pattern.find(t2p, '_N_td = {(_N_t, _N_n): [] for _N_t, _N_l in self.tags.items() for _N_n in range(len(_N_l))}')
+    rep.ob('verbose-report', mod, t2p, 'every class of every type starts with an empty list', bool(init),
+           '' if init else 'some class cannot be reported as missing', engine='flow')
+    miss = pattern.find(t2p, 'len(_N_v) == 0', 'expr')
+    dup = [b for b in pattern.find(t2p, 'len(_N_v) > 1', 'expr')]
+    okd = False
+    for b in dup:
+        par = getattr(b['_node'], '_parent', None)
+        if isinstance(par, ast.If) and any(pattern.has(s_, '_N_d.append(_N_v)', _N_v=b['_N_v']) for s_ in par.body):
+            okd = True
+    rep.ob('verbose-report', mod, t2p, 'classes without data are reported missing', bool(miss), '' if miss else 'missing classes are not reported',
+           engine='flow')
+    rep.ob('verbose-report', mod, t2p, 'classes given more than once are reported as duplicates', okd,
+           '' if okd else 'duplicates are not reported under `more than one tag of the class`', engine='flow')
     # ---- templates
     _templates(model, rep, mod, ci, gen)
     # ---- stale loop variables
@@ -210,8 +217,9 @@ def run(model, rep, tier):
     rep.ob('no-stale-loop-variable', mod, ig, 'Interstitial.generatetags', not list(flow.stale_loop_variables(ig)), engine='flow')
     # tagdict fill shape in both generators and the loader
     for cname, fn in (('VacancyMediated', gt), ('Interstitial', ig)):
-        ok = _has_stmt(fn, 'tagdict[tag], tagdicttype[tag] = (i, tagtype)') and _has_stmt(fn, 'for tagtype, taglist in tags.items():') \
-            and _has_stmt(fn, 'for i, tagset in enumerate(taglist):') and _has_stmt(fn, 'for tag in tagset:')
+        ok = pattern.has(fn, 'for _N_tt, _N_tl in _N_tags.items():\n    for _N_i, _N_ts in enumerate(_N_tl):\n        for _N_t in _N_ts:\n'
+                             '            if _N_t in _N_td:\n                raise ValueError(_E_msg)\n            else:\n'
+                             '                _N_td[_N_t], _N_tdt[_N_t] = (_N_i, _N_tt)')
         rep.ob('tag-type-tables', mod, fn, '%s.generatetags: tagdict[tag], tagdicttype[tag] = i, tagtype under the three nested loops' % cname,
                ok, '' if ok else 'tag -> (class index, type) dictionaries are not filled from the loops that enumerate the tags',
                engine='flow')
